@@ -242,7 +242,10 @@ def body(ctx):
                     others = [t for j, t in enumerate(ts) if j != a]
                     lines.append("static_assert(std::is_same<au::CommonPointUnitT<au::CommonPointUnitT<%s>, %s>, au::CommonPointUnitT<%s, au::CommonPointUnitT<%s>>>::value, \"nesting commutes\");"
                                  % (", ".join(others), ts[a], ts[a], ", ".join(others)))
-                    lines.append("static_assert(au::AreUnitsPointEquivalent<C, au::CommonPointUnitT<au::CommonPointUnitT<%s>, %s>>::value, \"nesting\");" % (", ".join(others), ts[a]))
+                    # (that the nested unit is point-EQUIVALENT to the flat one is not demanded: C10 speaks of
+                    #  orderings and repetitions of the inputs.  It is not always true either - an input whose
+                    #  zero origin is spelled in an odd unit, `0 x [452/57 K]`, contributes that unit's magnitude
+                    #  only when it meets a DISPLACED input directly; see DESIGN.md 4.3)
             # the function forms and the maker forms name the same unit
             lines.append("static_assert(std::is_same<decltype(au::common_point_unit(%s)), C>::value, \"common_point_unit(u...)\");" % ", ".join("%s{}" % t for t in ts))
             lines.append("static_assert(std::is_same<decltype(au::common_point_unit(%s)), C>::value, \"common_point_unit(u...) reversed\");" % ", ".join("%s{}" % t for t in reversed(ts)))
